@@ -87,6 +87,13 @@ def gen_cases(rng, tier):
     return out
 
 
+def obligations():
+    """the panic / unsafe site inventory of the anchored files must equal coq/Model/sites.json (DESIGN.md 5.2)"""
+    import scan_sites
+    scan_sites.REPO = __import__("common").REPO
+    return [("site-inventory", d) for d in scan_sites.compare()[:20]]
+
+
 def oracle(case, line):
     if "SLOW=" in line:
         return "over the time budget: %s" % line.split("SLOW=")[1]
